@@ -80,6 +80,7 @@ type Spec struct {
 	MethodWrapOff map[string]bool
 	Shared        map[int]*node // named structs used identically on both sides
 	NConts        map[int]*node // named container on ONE side, its unnamed form on the other
+	Unexported    bool          // some shared struct carries unexported fields → goverter:ignoreUnexported
 	HasOptional   bool
 	PtrRoot   map[int]bool
 	nextID    int
@@ -775,6 +776,9 @@ func (s *Spec) ConverterSource() string {
 		if s.UseZero {
 			lines = append(lines, "// goverter:useZeroValueOnPointerInconsistency")
 		}
+		if s.Unexported {
+			lines = append(lines, "// goverter:ignoreUnexported")
+		}
 		if !twin {
 			switch s.Wrap {
 			case "wrapErrors":
@@ -1025,6 +1029,15 @@ func (s *Spec) genShared(depth int) *node {
 			fn = &node{Kind: "slice", Elem: &node{Kind: "ptr", Elem: bas()}}
 		}
 		n.Fields = append(n.Fields, &field{Name: fmt.Sprintf("H%d", i), TName: fmt.Sprintf("H%d", i), N: fn})
+	}
+	if r.IntN(2) == 0 {
+		// internal state of the type: unexported reference fields (like big.Int, bytes.Buffer);
+		// generated code outside package w cannot touch them → goverter:ignoreUnexported
+		n.Fields = append(n.Fields,
+			&field{Name: fmt.Sprintf("hs%d", n.ID), TName: fmt.Sprintf("hs%d", n.ID), N: &node{Kind: "slice", Elem: bas()}},
+			&field{Name: fmt.Sprintf("hm%d", n.ID), TName: fmt.Sprintf("hm%d", n.ID), N: &node{Kind: "map", Key: &node{Kind: "basic", Basic: "string"}, Elem: bas()}},
+			&field{Name: fmt.Sprintf("hp%d", n.ID), TName: fmt.Sprintf("hp%d", n.ID), N: &node{Kind: "ptr", Elem: bas()}})
+		s.Unexported = true
 	}
 	return n
 }
